@@ -150,6 +150,23 @@ Example C06_check_defaults_example :
   check_defaults re0 (Tcd (JInt 3)) 3 2 = ROk tt /\ registered_generics re0 (Tcd (JInt 3)) 3 2 = [GU64].
 Proof. exact check_defaults_example. Qed.
 
+(* (6) what value_for_struct_props hands to the FLATTENED members of a struct-valued default ([o_struct_props] renders
+   them from [JObj (flatten_remainder props m)], Value.v) is exactly the entries whose key is not the SERIALIZED (wire)
+   name of a direct member -- the rename when there is one (`content-type`, `type`), never the Rust field identifier
+   (`content_type`, `type_`): a key consumed by a direct member is never in the flattened remainder, and every other
+   key is.  (A seeded change computed the remainder from `prop.name`.) *)
+Theorem C06_flatten_remainder_excludes_wire_names : forall ps m k x,
+  In (k, x) (flatten_remainder ps m) <-> In (k, x) m /\ forall p, In p ps -> wire_name p <> Some k.
+Proof. exact flatten_remainder_spec. Qed.
+
+Example C06_flatten_remainder_example :
+  flatten_remainder [mkProp (u "content_type") (RRename (u "content-type")) POptional 2; mkProp (u "extra") RFlatten PRequired 3]
+    [(u "content-type", JStr (u "text/plain")); (u "x-extra", JStr (u "1"))] = [(u "x-extra", JStr (u "1"))] /\
+  output_value Thd 4 4 (JObj [(u "content-type", JStr (u "text/plain")); (u "x-extra", JStr (u "1"))]) =
+    ROk (EStruct (u "Headers") [(FId (u "content_type"), ESome (EStr (u "text/plain")));
+                                (FId (u "extra"), EMap [(EStr (u "x-extra"), EStr (u "1"))])]).
+Proof. exact flatten_remainder_example. Qed.
+
 (* the former refutation witnesses, now regression examples of the repaired behaviour:
    String x 5, Vec<u8> x [300], S3(maxLength 3) x "toolong", IEnum[1,2] x 7, NonZeroU32 x 0 are
    rejected; (i64,) x [3] and W{k, #[flatten] extra} x {"k":1} render to typed expressions *)
